@@ -9,6 +9,9 @@ import (
 	"encoding/binary"
 	"encoding/json"
 	"fmt"
+	"go/ast"
+	"go/parser"
+	"go/token"
 	"os"
 	"sort"
 	"strconv"
@@ -79,21 +82,23 @@ type jlabels struct {
 }
 
 type jop struct {
-	Op      string   `json:"op"` // post | delete | move | reload | merge | cleave | mutate | ingest
-	Elems   []elem   `json:"elems,omitempty"`
-	P       pos      `json:"p,omitempty"`
-	Q       pos      `json:"q,omitempty"`
-	Blocks  []jblock `json:"blocks,omitempty"`
-	Target  uint64   `json:"target,omitempty"` // merge target / cleaved body
-	Labels  []uint64 `json:"labels,omitempty"` // merged bodies / cleaved supervoxels
-	B       pos      `json:"b,omitempty"`
-	Paint   []jpaint `json:"paint,omitempty"` // full content of the block (runs with label 0 included)
+	Op         string    `json:"op"` // post | delete | move | reload | merge | cleave | mutate | ingest
+	Elems      []elem    `json:"elems,omitempty"`
+	P          pos       `json:"p,omitempty"`
+	Q          pos       `json:"q,omitempty"`
+	Blocks     []jblock  `json:"blocks,omitempty"`
+	Target     uint64    `json:"target,omitempty"` // merge target / cleaved body
+	Labels     []uint64  `json:"labels,omitempty"` // merged bodies / cleaved supervoxels
+	B          pos       `json:"b,omitempty"`
+	Paint      []jpaint  `json:"paint,omitempty"`      // full content of the block (runs with label 0 included)
 	LabelLists []jlabels `json:"labellists,omitempty"` // POST labels
-	Force   bool     `json:"force,omitempty"` // re-emit every persistent query after this op
-	Queries []jquery `json:"queries,omitempty"`
+	LowMem     bool      `json:"lowmem,omitempty"`     // reload with inmemory=false (resyncLowMemory)
+	Force      bool      `json:"force,omitempty"`      // re-emit every persistent query after this op
+	Queries    []jquery  `json:"queries,omitempty"`
 }
 
 type jcase struct {
+	Kind   string   `json:"kind,omitempty"` // "big-reload": the generated big history (replayed by regenerating it from the seed)
 	Paint0 []jpaint `json:"paint0"`
 	Q0     []jquery `json:"q0,omitempty"`
 	Ops    []jop    `json:"ops"`
@@ -632,7 +637,7 @@ func (h *hist) start(q0 []jquery) {
 func poll(what string, f func() bool) bool {
 	t0 := time.Now()
 	for !f() {
-		if time.Since(t0) > 10*time.Second {
+		if time.Since(t0) > 60*time.Second {
 			fmt.Fprintln(os.Stderr, "c13: timed out waiting for", what)
 			return false
 		}
@@ -674,10 +679,19 @@ func (h *hist) execReload(op *jop) int {
 	if cls := classOf(dv.Post(h.url("ann", "blocks"), []byte(sb.String()))); cls != 0 {
 		return cls
 	}
+	return h.reloadAll(op.LowMem)
+}
+
+// reloadAll: annotation reload (in memory, or the low-memory variant) and labelsz reload, each awaited
+func (h *hist) reloadAll(lowMem bool) int {
 	if classOf(dv.Post(h.url("ann", "labels"), []byte(`{"`+sentinel1+`":`+sentinelNote+`}`))) != 0 {
 		return 2
 	}
-	if classOf(dv.Post(h.url("ann", "reload"), nil)) != 0 {
+	ru := "reload"
+	if lowMem {
+		ru = "reload?inmemory=false"
+	}
+	if classOf(dv.Post(h.url("ann", ru), nil)) != 0 {
 		return 2
 	}
 	if !poll("annotation reload to start", func() bool {
@@ -692,6 +706,9 @@ func (h *hist) execReload(op *jop) int {
 	}) {
 		return 2
 	}
+	// the low-memory reload files labels through storeLabelElements, which notifies labelsz: let those
+	// messages drain before the counts are rebuilt
+	h.settle("sz")
 	if !h.szReload(sentinelNote, 1) || !h.szReload(`"[]"`, 0) {
 		return 2
 	}
@@ -1066,7 +1083,7 @@ func (g *gstate) vary(e elem) (elem, bool) {
 
 type flags struct {
 	kindChange, dropCarry, crossBlock, sameBody, missing, link, partner bool
-	hostile string // ill-formed request that must be rejected with 400 and change nothing
+	hostile                                                             string // ill-formed request that must be rejected with 400 and change nothing
 }
 
 // genHostile: requests the server must reject before writing anything (C13-7-fix, C13-8-fix),
@@ -1390,7 +1407,7 @@ func (g *gstate) genMove(f *flags) *jop {
 }
 
 func (g *gstate) genReload() *jop {
-	op := &jop{Op: "reload"}
+	op := &jop{Op: "reload", LowMem: g.r.Bool()}
 	var blocks []pos
 	for _, e := range g.els {
 		b := blockOf(e.Pos)
@@ -1784,6 +1801,233 @@ func randomPaint0(r *lib.Rand) []jpaint {
 	return pt
 }
 
+// ---------- the big reload history ----------
+
+// reloadThresholds reads the flush thresholds of the reload code from the source tree the driver was
+// built against (VERIF_REPO, else /repo): every comparison `x > N` / `x >= N` with an integer literal
+// N >= 100 inside the resync* / *denorm* functions of datatype/annotation/denormalizations.go.  The big
+// history is sized at 3 x the largest of them (fallback 1000 when none is found).
+func reloadThresholds() (max int, found []int) {
+	root := os.Getenv("VERIF_REPO")
+	if root == "" {
+		root = "/repo"
+	}
+	fset := token.NewFileSet()
+	f, err := parser.ParseFile(fset, root+"/datatype/annotation/denormalizations.go", nil, 0)
+	if err == nil {
+		for _, d := range f.Decls {
+			fd, ok := d.(*ast.FuncDecl)
+			if !ok {
+				continue
+			}
+			name := strings.ToLower(fd.Name.Name)
+			if !strings.Contains(name, "resync") && !strings.Contains(name, "denorm") {
+				continue
+			}
+			ast.Inspect(fd, func(n ast.Node) bool {
+				be, ok := n.(*ast.BinaryExpr)
+				if !ok || (be.Op != token.GTR && be.Op != token.GEQ) {
+					return true
+				}
+				if lit, ok := be.Y.(*ast.BasicLit); ok && lit.Kind == token.INT {
+					if v, err := strconv.Atoi(lit.Value); err == nil && v >= 100 {
+						found = append(found, v)
+					}
+				}
+				return true
+			})
+		}
+	}
+	max = 1000
+	if len(found) > 0 {
+		max = 0
+		for _, v := range found {
+			if v > max {
+				max = v
+			}
+		}
+	}
+	return
+}
+
+func diffElems(exp, obs []elem) (missing, extra int) {
+	m := map[string]int{}
+	for _, e := range exp {
+		m[e.coq()]++
+	}
+	for _, e := range obs {
+		k := e.coq()
+		if m[k] > 0 {
+			m[k]--
+		} else {
+			extra++
+		}
+	}
+	for _, n := range m {
+		missing += n
+	}
+	return
+}
+
+// runBig: block-level ingest of enough tagged elements to cross every flush threshold of the reload
+// code several times, then both reload variants; every view is compared here with the element set
+// returned by all-elements and only the projected facts go into the cases file.
+func runBig(run *lib.Run, r *lib.Rand) {
+	thr, found := reloadThresholds()
+	n := 3*thr + 300
+	if n > 40000 {
+		n = 40000
+	}
+	paint0 := []jpaint{{-16, -1, 5}, {0, 7, 1}, {8, 15, 2}, {16, 31, 3}}
+	h := newHist(paint0)
+	var blocks []pos
+	for bx := -3; bx <= 4; bx++ {
+		for by := -1; by <= 1; by++ {
+			blocks = append(blocks, pos{bx, by, 0})
+		}
+	}
+	used := map[pos]bool{}
+	byBlock := map[pos][]elem{}
+	var posted []elem
+	tagEntries := 0
+	for len(posted) < n {
+		b := blocks[r.Intn(len(blocks))]
+		if r.Chance(0.4) { // more of them on labelled voxels
+			b = pos{r.Pick(-1, 0, 1), 0, 0}
+		}
+		p := pos{b[0]*bs + r.Intn(bs), b[1]*bs + r.Intn(bs), b[2]*bs + r.Intn(bs)}
+		if used[p] {
+			continue
+		}
+		used[p] = true
+		e := elem{Pos: p, Kind: r.Pick(1, 1, 2, 2, 3, 4, 0), Prop: r.Pick(0, 0, 1, 2)}
+		if r.Chance(0.75) {
+			e.Tags = append(e.Tags, 1) // one tag carried by most elements of every block
+		}
+		for t := 2; t <= 4; t++ {
+			if r.Chance(0.25) {
+				e.Tags = append(e.Tags, t)
+			}
+		}
+		tagEntries += len(e.Tags)
+		posted = append(posted, e)
+		byBlock[b] = append(byBlock[b], e)
+	}
+	var sb strings.Builder
+	sb.WriteByte('{')
+	first := true
+	for _, b := range blocks {
+		if len(byBlock[b]) == 0 {
+			continue
+		}
+		if !first {
+			sb.WriteByte(',')
+		}
+		first = false
+		fmt.Fprintf(&sb, `"%d,%d,%d":`, b[0], b[1], b[2])
+		sb.Write(wireElems(byBlock[b]))
+	}
+	sb.WriteByte('}')
+	var facts []string
+	fact := func(class, key, exp, obs, missing, extra int) {
+		facts = append(facts, fmt.Sprintf("(%d,%s,%d,%d,%d,%d)", class, z(key), exp, obs, missing, extra))
+	}
+	if cls := classOf(dv.Post(h.url("ann", "blocks"), []byte(sb.String()))); cls != 0 {
+		fact(1, 0, 0, cls, 0, 0)
+	}
+	for variant, lowMem := range []bool{true, false} {
+		v := (variant + 1) * 1000
+		if h.reloadAll(lowMem) != 0 {
+			fact(1, v, 0, 1, 0, 0)
+			continue
+		}
+		var G []elem
+		bl := h.getBlocks(h.url("ann", "all-elements"))
+		bad := 0
+		for _, b := range bl {
+			for _, e := range b.Elems {
+				if blockOf(e.Pos) != b.B {
+					bad++
+				}
+				G = append(G, e)
+			}
+		}
+		mi, xt := diffElems(posted, G)
+		fact(9, v, len(posted), len(G), mi, xt)
+		fact(2, v, 0, bad, 0, 0)
+		for t := 1; t <= 4; t++ {
+			var exp []elem
+			for _, e := range G {
+				if hasTag(e, t) {
+					exp = append(exp, e)
+				}
+			}
+			obs := h.getElems(h.url("ann", fmt.Sprintf("tag/t%d", t)))
+			mi, xt = diffElems(stripRels(exp), stripRels(obs))
+			fact(3, v+t, len(exp), len(obs), mi, xt)
+			obs = h.getElems(h.url("ann", fmt.Sprintf("tag/t%d?relationships=true", t)))
+			mi, xt = diffElems(exp, obs)
+			fact(3, v+100+t, len(exp), len(obs), mi, xt)
+		}
+		for _, l := range h.known {
+			var exp []elem
+			var cnt [6]int
+			for _, e := range G {
+				if h.bodyAt(e.Pos) == l {
+					exp = append(exp, e)
+					if e.Kind >= 1 && e.Kind <= 4 {
+						cnt[e.Kind]++
+					}
+					if e.Kind >= 1 && e.Kind <= 3 {
+						cnt[5]++
+					}
+				}
+			}
+			obs := h.getElems(h.url("ann", "label/"+u(l)))
+			mi, xt = diffElems(stripRels(exp), stripRels(obs))
+			fact(4, v+int(l), len(exp), len(obs), mi, xt)
+			for i := 1; i <= 5; i++ {
+				b := h.get(h.url("sz", fmt.Sprintf("count/%d/%s", l, idxNames[i])), nil)
+				var m map[string]uint64
+				json.Unmarshal(b, &m)
+				fact(5, v+10*int(l)+i, cnt[i], int(m[idxNames[i]]), 0, 0)
+			}
+		}
+		for bi, box := range [][2]pos{{{-40, -20, -4}, {100, 60, 24}}, {{-17, 3, 0}, {34, 20, 16}}, {{5, -16, 1}, {1, 48, 9}}} {
+			off, size := box[0], box[1]
+			var exp []elem
+			for _, e := range G {
+				in := true
+				for d := 0; d < 3; d++ {
+					in = in && e.Pos[d] >= off[d] && e.Pos[d] < off[d]+size[d]
+				}
+				if in {
+					exp = append(exp, e)
+				}
+			}
+			obs := h.getElems(h.url("ann", fmt.Sprintf("elements/%d_%d_%d/%d_%d_%d", size[0], size[1], size[2], off[0], off[1], off[2])))
+			mi, xt = diffElems(exp, obs)
+			fact(7, v+bi, len(exp), len(obs), mi, xt)
+		}
+		if h.dead {
+			fmt.Fprintln(os.Stderr, "c13: big history:", h.why)
+			fact(1, v+1, 0, 1, 0, 0)
+			break
+		}
+	}
+	run.Count("big: histories")
+	run.Extra["big_history"] = map[string]interface{}{"elements": len(posted), "tag_entries": tagEntries, "blocks": len(byBlock),
+		"reload_thresholds_found_in_source": found, "sized_for_threshold": thr}
+	type bigCase struct {
+		Kind     string `json:"kind"`
+		Elements int    `json:"elements"`
+		Note     string `json:"note"`
+	}
+	run.Add("big-reload", "(zBig ["+strings.Join(facts, ";\n   ")+"])",
+		bigCase{"big-reload", len(posted), "regenerated from the seed: a replay of this case needs the same VERIF_SEED"},
+		fmt.Sprintf("big-%d", len(posted)))
+}
+
 // ---------- running histories ----------
 
 func opKey(ops []jop) string {
@@ -1843,6 +2087,9 @@ func countOp(run *lib.Run, op *jop, cls int, f flags) {
 	}
 	if f.dropCarry {
 		run.Count("post:drop+add same tag in one block")
+	}
+	if op.Op == "reload" && op.LowMem {
+		run.Count("reload:low-memory variant")
 	}
 	if f.hostile != "" {
 		run.Count("hostile: " + f.hostile)
@@ -1920,6 +2167,7 @@ func corpus() []jcase {
 				{Q: "region", Off: all, Size: pos{40, 24, 24}},
 				{Q: "blocks", Off: pos{0, 0, 0}, Size: pos{16, 16, 16}},
 			}},
+			{Op: "reload", LowMem: true, Force: true, Queries: []jquery{{Q: "top", I: 5, N: 4}, {Q: "region", Off: all, Size: pos{40, 24, 24}}}},
 		}},
 		// (iii) mutual relationship across blocks; the moved element goes to negative coordinates on
 		// another body, its partner is then moved within its block, then the first one is deleted
@@ -1945,7 +2193,7 @@ func corpus() []jcase {
 			{Op: "post", Elems: []elem{{Pos: pos{5, 5, 5}, Kind: 1}, {Pos: pos{6, 5, 5}, Kind: 1}, {Pos: pos{5, 5, 5}, Kind: 2}}},
 			{Op: "post", Elems: []elem{{Pos: pos{6, 6, 6}, Kind: 4, Tags: []int{1, 2, 1}}}},
 			{Op: "post", Elems: []elem{{Pos: pos{7, 7, 7}, Kind: 3, Rels: []rel{{Rel: 4, To: pos{7, 7, 7}}}}}}, // accepted (upstream fixtures relate elements to themselves)
-			{Op: "move", P: pos{7, 7, 7}, Q: pos{27, 7, 7}},                                                          // rejected: the relationship cannot follow
+			{Op: "move", P: pos{7, 7, 7}, Q: pos{27, 7, 7}},                                                    // rejected: the relationship cannot follow
 			{Op: "delete", P: pos{7, 7, 7}},
 			{Op: "move", P: pos{4, 4, 4}, Q: pos{20, 4, 4}},
 			{Op: "move", P: pos{4, 4, 4}, Q: pos{5, 4, 4}},
@@ -1995,7 +2243,11 @@ func main() {
 			dv.Close()
 			os.Exit(2)
 		}
-		runStored(run, "history", jc)
+		if jc.Kind == "big-reload" {
+			runBig(run, rng)
+		} else {
+			runStored(run, "history", jc)
+		}
 	} else {
 		n := 16
 		if o.Thorough() {
@@ -2012,6 +2264,7 @@ func main() {
 		for i := len(corpus()); i < n; i++ {
 			runRandom(run, rng, 13+rng.Intn(5))
 		}
+		runBig(run, rng)
 	}
 	run.Finish("c13case", rule, tail)
 	if st, err := os.Stat(o.OutDir + "/cases_C13.v"); err == nil {
